@@ -74,6 +74,22 @@ theorem C12_equiv (M : Matcher) (hM : MatcherOK M) (optPres : Bool) (p : Propert
         exact hitem y (List.all_eq_true.mp hk y hy)
       rw [hall]
       simp [j5Accepts]
+  | map s rules sf =>
+    simp only [FieldSchema.item] at hitem
+    cases v with
+    | absent => simp [WellTyped] at hty
+    | single x => simp [WellTyped] at hty
+    | list xs =>
+      have hk : xs.all (·.hasKind s) = true := by simpa [WellTyped] using hty
+      have hpres : (Property.hasPresence ⟨name, num, req, opt, desc, .map s rules sf⟩ optPres) = false := rfl
+      simp only [hpres, pv_map M _ a.validate rules _ xs]
+      have hall : xs.all (evalOpt M (definedOf ⟨name, num, req, opt, desc, .map s rules sf⟩) a.validate) =
+          xs.all (j5Item M s) := by
+        apply all_congr_mem
+        intro y hy
+        exact hitem y (List.all_eq_true.mp hk y hy)
+      rw [hall]
+      simp [j5Accepts]
 
 /-- required presence: whatever the other rules, a required field that is unset (or zero-valued,
 for fields without presence) is rejected, and an empty list is rejected for a required array. -/
@@ -94,6 +110,13 @@ theorem C12_required_equiv (M : Matcher) (hM : MatcherOK M) (optPres : Bool) (p 
         simp [j5Accepts, hreq, hempty.1, hempty.2]
       | list xs => simp [WellTyped] at hty
     | array s rules sf =>
+      cases v with
+      | absent => simp [WellTyped] at hty
+      | single x => simp [WellTyped] at hty
+      | list xs =>
+        simp only [fieldHas, Bool.not_eq_false'] at hempty
+        simp [j5Accepts, hreq, hempty]
+    | map s rules sf =>
       cases v with
       | absent => simp [WellTyped] at hty
       | single x => simp [WellTyped] at hty
@@ -172,6 +195,68 @@ theorem C12_array_equiv (M : Matcher) (hM : MatcherOK M) (p : Property) (s : Sch
             cases b with
             | false => left; rfl
             | true => right; exact hu hq
+
+/-- maps (`map:<type>`, since d9448b1 the compiler writes their rules): the verdict is the
+conjunction of required (non-empty), the pair count bounds and the rules of every value -/
+theorem C12_map_equiv (M : Matcher) (hM : MatcherOK M) (p : Property) (s : Schema)
+    (rules : Option MapRules) (sf : Option String) (xs : List Scalar)
+    (hs : p.schema = .map s rules sf)
+    (hwf : WFRules p = true) (hty : WellTyped false p (.list xs) = true) :
+    ∃ c, compileRules p = .ok c ∧
+      (pvField M (definedOf p) c false (.list xs) = .accept ↔
+        ((p.required = true → xs ≠ []) ∧
+         (∀ r, rules = some r →
+            (∀ n, r.minPairs = some n → n ≤ xs.length) ∧
+            (∀ n, r.maxPairs = some n → xs.length ≤ n)) ∧
+         ∀ x ∈ xs, j5Item M s x = true)) := by
+  obtain ⟨c, hc, hv⟩ := C12_equiv M hM false p (.list xs) hwf hty
+  refine ⟨c, hc, ?_⟩
+  have hp : p.hasPresence false = false := by
+    simp [Property.hasPresence, hs]
+  rw [hp] at hv
+  rw [hv]
+  have hacc : ∀ b : Bool, ofBool b = Verdict.accept ↔ b = true := by
+    intro b; cases b <;> simp [ofBool]
+  rw [hacc]
+  have hreq : p.effRequired = p.required := by
+    simp [Property.effRequired, Property.primaryKey, hs]
+  simp only [j5Accepts, hs, hreq, Bool.and_eq_true, Bool.or_eq_true, Bool.not_eq_true', List.all_eq_true]
+  constructor
+  · rintro ⟨⟨h1, h2⟩, h3⟩
+    refine ⟨?_, ?_, h3⟩
+    · intro hr hx
+      rcases h1 with h1 | h1
+      · simp [hr] at h1
+      · simp [hx] at h1
+    · intro r hr
+      subst hr
+      simp only [optAll, Bool.and_eq_true] at h2
+      obtain ⟨hmin, hmax⟩ := h2
+      refine ⟨?_, ?_⟩
+      · intro n hn; simpa [hn, optAll] using hmin
+      · intro n hn; simpa [hn, optAll] using hmax
+  · rintro ⟨h1, h2, h3⟩
+    refine ⟨⟨?_, ?_⟩, h3⟩
+    · cases hr : p.required with
+      | false => simp
+      | true =>
+        right
+        have := h1 hr
+        cases xs with
+        | nil => exact absurd rfl this
+        | cons _ _ => rfl
+    · cases rules with
+      | none => simp [optAll]
+      | some r =>
+        obtain ⟨hmin, hmax⟩ := h2 r rfl
+        simp only [optAll, Bool.and_eq_true]
+        refine ⟨?_, ?_⟩
+        · cases hm : r.minPairs with
+          | none => rfl
+          | some n => simpa using hmin n hm
+        · cases hm : r.maxPairs with
+          | none => rfl
+          | some n => simpa using hmax n hm
 
 /-! ## integer bounds: inclusivity, stated outright -/
 
@@ -316,6 +401,15 @@ example : WFRules {
     schema := .single (.enum { name := "En", defaultPrefix := "EN_", options := ["A", "B", "C"] }
                 (some { notIn := ["C"] })
                 (some { text := "f1/df41+454e5f42/s0/ds0/q0/qi-", defaultFilters := ["A", "EN_B"] })) } = true := by
+  decide
+
+example : WFRules {
+    name := "m", number := 2, required := true,
+    schema := .map (.integer .i32 (some { minimum := some 3 }) none) (some { minPairs := some 1, maxPairs := some 3 }) none } = true ∧
+  WellTyped false {
+    name := "m", number := 2, required := true,
+    schema := .map (.integer .i32 (some { minimum := some 3 }) none) (some { minPairs := some 1, maxPairs := some 3 }) none }
+    (.list [.int 3, .int 7]) = true := by
   decide
 
 example : WFRules {
